@@ -410,7 +410,13 @@ impl C11 {
             s0.reset_request_after = None;
             s0.fault = None;
             let head_len = s0.render().head_len as u32;
-            let points: Vec<FaultAt> = (0..head_len).map(FaultAt::Head).chain((0..s0.ipp.len() as u32).map(FaultAt::Body)).collect();
+            let mut points: Vec<FaultAt> = (0..head_len).map(FaultAt::Head).chain((0..s0.ipp.len() as u32).map(FaultAt::Body)).collect();
+            if points.len() > 700 {
+                // long responses: every offset of the first 400 bytes, then ~300 evenly spaced ones (keeps a sweep
+                // in the millisecond range whatever the size of the scripted response)
+                let step = (points.len() - 400) / 300 + 1;
+                points = points.iter().enumerate().filter(|(i, _)| *i < 400 || (*i - 400) % step == 0).map(|(_, p)| *p).collect();
+            }
             for at in points {
                 let mut s = s0.clone();
                 s.fault = Some(RespFault { at, kind: RespFaultKind::Cut });
